@@ -33,7 +33,7 @@ def program(frag, env, extra=""):
 def semtool(req, timeout=120):
     """one request in a fresh child process; returns response dict or {'outcome': 'timeout'|'abort'}"""
     try:
-        p = subprocess.run([os.path.join(vlib.BIN, "semtool")], input=json.dumps(req) + "\n", stdout=subprocess.PIPE,
+        p = subprocess.run([vlib.bin_path("semtool")], input=json.dumps(req) + "\n", stdout=subprocess.PIPE,
                            stderr=subprocess.DEVNULL, text=True, timeout=timeout)
     except subprocess.TimeoutExpired:
         return {"outcome": "timeout"}
